@@ -8,9 +8,12 @@
      tol_luma = 1e-6 in luma
    first component:  the implementation chose the model's entry, or one whose
                      exact distance differs from the model's by at most the tolerance
-   second component: (property) the implementation's entry is within the tolerance of
-                     the brute-force minimum over all 240 entries / all 4 levels;
-                     true colour: channels unchanged. *)
+   second component: (property) the xterm palette entry the implementation selected,
+                     placed where the library's own sRGB->linear conversion puts its
+                     colour (NOT where the typed tables say), is within the tolerance of
+                     the brute-force minimum over all 240 entries so placed / of the
+                     nearest of the 4 levels; true colour: channels unchanged.
+                     A mistyped table constant therefore yields failing colours. *)
 From Coq Require Import List NArith ZArith Bool.
 From SNT Require Export Base.Report Base.Outcome Encoder.Decimal Encoder.Utf8 Encoder.Encode Encoder.VT Encoder.Denote
   Encoder.Color256 Gen.TabColor.
@@ -20,9 +23,9 @@ Local Open Scope N_scope.
 Inductive c20_case := K (d : depth) (c : rgba) (impl : option (list N)).
 
 (* the 240 entries once, not per case *)
-Definition palette_entries : list vec := Eval vm_compute in map (entry cube_z greys_z) palette_indices.
+Definition palette_entries : list vec := Eval vm_compute in map (entry xcube_z xgreys_z) palette_indices.
 Definition best_d2_tab (v : vec) : Z :=
-  fold_left (fun m e => Z.min m (d2 v e)) palette_entries (d2 v (entry cube_z greys_z 16)).
+  fold_left (fun m e => Z.min m (d2 v e)) palette_entries (d2 v (entry xcube_z xgreys_z 16)).
 
 Definition level_of_entry (e : N) : option N :=
   match e with 0 => Some 0 | 8 => Some 1 | 7 => Some 2 | 15 => Some 3 | _ => None end.
@@ -57,7 +60,8 @@ Definition c20_check (k : c20_case) : bool * bool :=
                   let dm := d2 v (entry cube_z greys_z (pal256_exact c)) in
                   let roles := (n =? n2) && (n =? n3) && (16 <=? n) && (n <? 256) in
                   ( roles && ((n =? pal256_exact c) || sqrt_le_plus di dm tol256)
-                  , opaque_ok && roles && sqrt_le_plus di (best_d2_tab v) tol256 && vt_complete ib )
+                  , opaque_ok && roles
+                    && sqrt_le_plus (d2 v (entry xcube_z xgreys_z n)) (best_d2_tab v) tol256 && vt_complete ib )
               | _, _, _ => (false, false)
               end
           | Gray =>
